@@ -154,7 +154,7 @@ def gen_history(r, tier):
     ops = []
     setup = {"fee": r.choice(["0", "0", "1000", "250000"]), "allowed": r.choice([[F], [F], [F, B], [], [F, GOV]]),
              "unpool": r.choice([[], [], [2], [1, 2]]), "wasm": r.chance(1, 3)}
-    n = r.range(14, 30)
+    n = r.range(16, 32)
     subs = ["foo", "bar", "x/y", "a"]
 
     def add(o, **kw):
@@ -162,11 +162,11 @@ def gen_history(r, tier):
         ops.append(o)
 
     # a base so that every case has objects of all three kinds
-    script = ["pos", "pos", "swap", "lock_sf", "denom", "mint", "lock_plain"]
+    script = ["pos", "pos", "swap", "lock_sf", "denom", "mint", "lock_factory", "lock_plain", "delegate"]
     kinds = ["pos", "swap", "transfer", "withdraw", "addpos", "fullpos", "lock_sf", "lock_sf", "lock_plain", "lock_b", "delegate", "delegate",
              "undelegate", "undelegate", "unbond", "unbond", "und_unb", "begin_unlock", "extend", "receiver", "lock_delegate", "time", "denom", "mint",
-             "chadmin", "renounce", "metadata", "burn", "ftransfer", "send", "force_unlock", "incentive", "collect", "convert", "hook",
-             "lock_factory"]
+             "chadmin", "renounce", "renounce", "metadata", "burn", "ftransfer", "send", "force_unlock", "incentive", "collect", "convert", "hook",
+             "lock_factory", "denom"]
     while len(script) < n:
         script.append(r.choice(kinds))
     for k in script:
@@ -343,7 +343,7 @@ def gen_history(r, tier):
             adm = m.denoms[d]
             den = "factory/@%d/%s" % d
             if k == "mint":
-                to = r.choice(USERS)
+                to = Z if r.chance(1, 8) else r.choice(OWNERS + [D])
                 amt = na(r.range(10, 10**6))
                 add({"k": "tf_mint", "s": adm, "den": den, "amt": str(amt), "to": to})
                 m.fbal[(to, d)] = m.fbal.get((to, d), 0) + amt
@@ -352,7 +352,7 @@ def gen_history(r, tier):
                 add({"k": "tf_change_admin", "s": adm, "den": den, "to": to})
                 m.denoms[d] = to
             elif k == "renounce":
-                if r.chance(1, 2):
+                if r.chance(2, 3):
                     add({"k": "tf_change_admin", "s": adm, "den": den, "to": -1})
                     m.denoms[d] = None
             elif k == "metadata":
@@ -964,7 +964,7 @@ def evaluate(cases, obs, model_ok, out, tag, perturb=None):
     """oracle on every step, Coq model on every modelled step; returns nothing, fills `out`"""
     files = []
     index = []   # per file: list of (case idx, op idx)
-    kinds, verdicts, sender_cls = {}, {}, {}
+    kinds, verdicts, sender_cls, target_cls = {}, {}, {}, {}
     for ci, (c, ob) in enumerate(zip(cases, obs)):
         if c.get("broken") or ob.get("err"):
             out.oracle_violations.append({"what": "driver failed on a case: %s" % (c.get("broken") or ob.get("err")), "rec": {"kind": "driver_error"}, "case": c})
@@ -989,6 +989,9 @@ def evaluate(cases, obs, model_ok, out, tag, perturb=None):
                 verdicts[vk] = verdicts.get(vk, 0) + 1
                 sc = NAMES[o["s"]].split(":")[0]
                 sender_cls[sc] = sender_cls.get(sc, 0) + 1
+                tc = target_class(o, cur)
+                if tc:
+                    target_cls[tc] = target_cls.get(tc, 0) + 1
                 for vv in oracle(o, st, cur, post, static):
                     vv["case"] = {"setup": c["setup"], "ops": history_of(c, oi) + [dict(o, c=False)]}
                     out.oracle_violations.append(vv)
@@ -1011,7 +1014,7 @@ def evaluate(cases, obs, model_ok, out, tag, perturb=None):
         if blocks:
             files.append(("C20_%s_%d" % (tag, ci), coq_file(tag, blocks)))
             index.append(where)
-    out.distribution = {"message_kinds": kinds, "verdicts": verdicts, "sender_classes": sender_cls}
+    out.distribution = {"message_kinds": kinds, "verdicts": verdicts, "sender_classes": sender_cls, "target_object_states": target_cls}
     if not model_ok:
         out.model_ran = False
         return
@@ -1028,6 +1031,28 @@ def evaluate(cases, obs, model_ok, out, tag, perturb=None):
             out.mismatches.append({"what": "C20 model and implementation disagree on %s from %s: implementation %s" % (
                 c["ops"][oi]["k"], NAMES[c["ops"][oi]["s"]], "accepted" if st["r"] == 0 else "rejected (class %d: %s)" % (st["ec"], st.get("err", ""))),
                 "case": {"setup": c["setup"], "ops": history_of(c, oi) + [dict(c["ops"][oi], c=False)]}})
+
+
+def target_class(o, pre):
+    """state class of the object a probe addresses (for the evidence histogram)"""
+    k = o["k"]
+    if k in LOCK_ONE or (k == "sf_unbond_convert_stake" and o["id"] > 0):
+        l = pre.locks.get(o["id"])
+        if l is None:
+            return "lock:missing"
+        return "lock:%s%s%s" % (["plain", "sf-bonded", "sf-unbonding"][l["synth"]], ",unlocking" if l["unl"] else "", ",receiver-set" if l["recv"] >= 0 else "")
+    if k in POS_ONE or k == "sf_add_to_cl":
+        p = pre.pos.get(o["id"])
+        if p is None:
+            return "position:missing"
+        return "position:%s" % ("locked" if p["lock"] else "free")
+    if k in TF_ADMIN:
+        d = pre.denoms.get(o["den"])
+        if d is None:
+            return "denom:missing"
+        cr = denom_creator(o["den"])
+        return "denom:%s%s" % ("renounced" if d["admin"] < 0 else ("admin=creator" if d["admin"] == cr else "admin-changed"), ",hook" if d["hook"] >= 0 else "")
+    return None
 
 
 def history_of(c, oi):
@@ -1079,7 +1104,7 @@ def selftest(cases, obs, out):
 def correspond(tier, seed, model_ok):
     out = Outcome()
     r = Rng(seed)
-    n = 20 if tier == "quick" else 400
+    n = 20 if tier == "quick" else 250
     cases = common.load_corpus(PROP) + plan(r, tier, n)
     obs = drive(cases)
     evaluate(cases, obs, model_ok, out, "q")
